@@ -244,7 +244,7 @@ func vfcStreams(r *rand.Rand, h vfrHandles, nrand int, poison, valid, stalls boo
 	// word edits: for the primary well-formed call of every procedure, every 32-bit word of the arguments
 	// replaced by boundary values (0, 1, 2^31-1, 2^31, 2^32-1, ...), the rest left valid; eight per connection
 	{
-		vals := []uint32{0, 1, 0x7fffffff, 0x80000000, 0xffffffff, 8, 0x10000, 0x00100001}
+		vals := []uint32{0, 1, 0x7fffffff, 0x80000000, 0xffffffff, 8, 0x10000, 0x00100001, 0xfffffffd, 0xfffffffe, 0xfffffffc}
 		per := 2
 		if vfThorough() {
 			per = len(vals)
@@ -278,6 +278,54 @@ func vfcStreams(r *rand.Rand, h vfrHandles, nrand int, poison, valid, stalls boo
 			}
 		}
 		flush()
+	}
+	// credential edits: the call header stays decodable (body <= 400 bytes) while every 32-bit word of a
+	// well-formed AUTH_SYS body is replaced by boundary values, among them the lengths whose padded size wraps
+	// around 2^32; also bodies cut at every word and other flavors over the same bytes. The credential is parsed
+	// before any handler runs (ValidateAuthentication), outside the request goroutine.
+	{
+		vals := []uint32{0, 1, 17, 400, 401, 8193, 0x7fffffff, 0x80000000, 0xfffffffc, 0xfffffffd, 0xfffffffe, 0xffffffff}
+		good := vfAuthSysBody(7, "vfhost", 1000, 100, []uint32{1, 2, 3})
+		bases := []vfrCase{
+			{Prog: NFS_PROGRAM, Vers: 3, Proc: NFSPROC3_GETATTR, Args: vfArgsFH(h.file)},
+			{Prog: NFS_PROGRAM, Vers: 3, Proc: 0},
+			{Prog: MOUNT_PROGRAM, Vers: 3, Proc: 1, Args: []byte{0, 0, 0, 1, '/', 0, 0, 0}},
+		}
+		var s []byte
+		nIn := 0
+		add := func(b *vfrCase, flavor uint32, body []byte) {
+			e := *b
+			e.Cred = vfCred{Flavor: flavor, Raw: body, IP: "127.0.0.1", Port: 1000}
+			s = append(s, vfcFrame(call(&e), r, false)...)
+			if nIn++; nIn == 8 {
+				out = append(out, vfcStream{Kind: "crededit", Bytes: s})
+				s, nIn = nil, 0
+			}
+		}
+		for bi := range bases {
+			for off := 0; off+4 <= len(good); off += 4 {
+				for vi, v := range vals {
+					if bi > 0 && v < 0xfffffffc && !vfThorough() { // the other procedures: the wrap-around class only
+						continue
+					}
+					if bi == 0 && !vfThorough() && vi%2 == int(r.Int31n(2)) && v < 0xfffffffc {
+						continue
+					}
+					body := append([]byte{}, good...)
+					binary.BigEndian.PutUint32(body[off:], v)
+					add(&bases[bi], AUTH_SYS, body)
+				}
+			}
+		}
+		for cut := 0; cut < len(good); cut += 4 {
+			add(&bases[0], AUTH_SYS, good[:cut])
+		}
+		for _, fl := range []uint32{AUTH_NONE, AUTH_SHORT, AUTH_DH, 6, 0xffffffff} {
+			add(&bases[0], fl, good)
+		}
+		if nIn > 0 {
+			out = append(out, vfcStream{Kind: "crededit", Bytes: s})
+		}
 	}
 	// a record assembled from many fragments that passes the limit only by accumulation (1 MiB + 1 really sent)
 	{
